@@ -150,6 +150,10 @@ def seeded(names, tier="quick"):
             continue
         meta = json.load(open(os.path.join(d, "meta.json")))
         prop = meta["property"]
+        if meta.get("superseded"):
+            # the change is no longer a regression on the repaired tree (kept for the record)
+            print(f"[selftest] seeded {name} ({prop}): superseded - {meta['superseded'][:160]}", flush=True)
+            continue
         if not os.path.exists(os.path.join(VERIF, "icalsim", "props", prop.lower() + ".py")):
             rows.append((name, prop, "not claimed (N/A)"))
             continue
